@@ -73,11 +73,15 @@ func NewObjectStream(stream *Stream) (*ObjectStream, error) {
 	// Get optional /Extends - reference to another object stream
 	var extends *IndirectRef
 	if extendsObj := stream.Dict.Get("Extends"); extendsObj != nil {
-		ref, ok := extendsObj.(*IndirectRef)
-		if !ok {
+		// The parser produces IndirectRef values; a pointer is accepted as well.
+		switch ref := extendsObj.(type) {
+		case IndirectRef:
+			extends = &ref
+		case *IndirectRef:
+			extends = ref
+		default:
 			return nil, fmt.Errorf("invalid /Extends type: %T", extendsObj)
 		}
-		extends = ref
 	}
 
 	os := &ObjectStream{
